@@ -38,6 +38,8 @@ def block_factories():
         "UserWaveguide": (lambda: L.UserWaveguide(L=7.0, func=uw_index, param_dic={"wl": 1.55, "T": 0.0}), {"wl": (1.5, 1.6), "T": (0.0, 50.0)}),
         "UserWaveguide2m": (lambda: L.UserWaveguide(L=7.0, func=uw_index, param_dic={"wl": 1.55, "T": 0.0},
                                                     allowedmodes={"TE": {}, "TM": {"T": 5.0}}), {"wl": (1.5, 1.6)}),
+        # the index function reads T, which the block does not declare (no param_dic): swept like any other parameter
+        "UserWaveguideBare": (lambda: L.UserWaveguide(L=7.0, func=uw_index), {"wl": (1.5, 1.6), "T": (0.0, 50.0)}),
         "PhaseShifter": (lambda: L.PhaseShifter(), {"PS": (-1.0, 1.0)}),
         "PushPullPhaseShifter": (lambda: L.PushPullPhaseShifter(), {"PS": (-1.0, 1.0)}),
         "PolRot": (lambda: L.PolRot(), {"angle": (-1.0, 1.0)}),
@@ -51,7 +53,7 @@ def block_factories():
     }
 
 
-REQUIRED = {"Ring": ["wl"], "FPR": ["wl"], "FPRGaussian": ["wl"]}
+REQUIRED = {"Ring": ["wl"], "FPR": ["wl"], "FPRGaussian": ["wl"], "UserWaveguideBare": ["wl"]}
 
 
 def rand_assignment(rng, params, n, required=()):
@@ -192,6 +194,10 @@ def check_solver_sweep(ctx, pcirc, assign, replay):
     kw = {}
     for nm, (mode, v) in assign.items():
         kw[nm] = float(v) if mode == "scalar" else np.array([float(v)]) if mode == "len1" else np.array([float(x) for x in v])
+        # a scan over whole numbers is passed the way a user writes it: np.arange / a list of ints (integer dtype); the constants
+        # next to it keep their fractional (or complex) values whatever the dtype of the swept array
+        if mode == "lenN" and all(Fraction(x).denominator == 1 for x in v) and (len(v) + len(assign)) % 2 == 0:
+            kw[nm] = np.array([int(x) for x in v]) if len(v) % 2 else [int(x) for x in v]
     names = cs.exposed_names(pcirc)
     try:
         sol, sts = impl.build_param_solver(pcirc)
